@@ -60,6 +60,27 @@ CLAIMED["C19"] = ("TLC checks NoCarryOver (C19) and structure on DumpSeq with tw
             "Trusted: TLC, mdparse, /proc/<pid>/mem comparator for region bytes; stacks of threads that keep running are excluded from byte comparison.",
             "TLA+ model checking (TLC) + history-generated dumps + trace validation", "DESIGN.md 4/C19")
 
+CLAIMED["C05"] = ("The field map ucontext/fpstate/siginfo -> exception record and context (incl. REG_CSGSFS unpacking and the format's truncations) is data in the "
+            "trace specification; dumps are taken with generated crash contexts in which every register differs, for every choice of blamed thread, and TLC "
+            "compares every field; the pipeline model (DumpSeq) checks that the exception stream names the blamed thread's context of the same image.",
+            "Trusted: TLC, mdparse's context decoder, the limb projection of 64-bit values; x86-64 only.",
+            "TLA+ model checking (TLC) of the pipeline + trace validation of generated dumps against a declarative field map", "DESIGN.md 4/C05")
+CLAIMED["C06"] = ("TLC checks C06 on StackSel (get_stack_info's page walk as a loop with termination and bound, size limit, list positions 19/20, crash thread) for "
+            "every SP offset of four layouts; real dumps of 20..64-thread targets with the SP at chosen in-page offsets (incl. 2047/2048/2049, guard pages, holes) "
+            "and limits around the estimate threshold are judged per thread, and the recorded region must equal the model's prediction.",
+            "Trusted: TLC, mdparse, /proc/<pid>/maps lines around the SP as the mapping list, /proc/<pid>/mem comparator for the bytes from SP upward.",
+            "TLA+ model checking (TLC) + scenario-generated dumps + trace validation", "DESIGN.md 4/C06")
+CLAIMED["C07"] = ("TLC judges the memory list of generated dumps: the application regions and every non-empty stack must be present with exact address and length, "
+            "the IP window must be the clipping arithmetic of the statement (IP at the 8 boundary positions of a mapping with mapped/unmapped neighbours), every "
+            "region's bytes must equal target memory; the pipeline model checks that descriptors name blobs of the same image.",
+            "Trusted: TLC, mdparse, rank projection of addresses, /proc/<pid>/mem comparator.",
+            "TLA+ model checking (TLC) of the pipeline + scenario-generated dumps + trace validation", "DESIGN.md 4/C07")
+CLAIMED["C20"] = ("TLC checks the inclusion rule on StackSel for IPs and stack words at {low-1, low, high-1, high, high+1}; dumps of targets whose threads hold / do not "
+            "hold a pointer into the principal mapping (aligned, unaligned, below SP, at the edges) are judged per thread from the thread's live stack words, plus "
+            "the soft-error clause per dump; recorded inclusion must equal the model's.",
+            "Trusted: TLC, mdparse, the harness's read of each thread's stack words through /proc/<pid>/mem.",
+            "TLA+ model checking (TLC) + scenario-generated dumps + trace validation", "DESIGN.md 4/C20")
+
 NOT_YET = {
 }
 
